@@ -19,7 +19,7 @@ func VerifC06Include() {
 	// included project: sub/inc.yaml
 	inc := map[string]any{
 		"services": map[string]any{
-			"inc": map[string]any{"image": "img-${TAG:-none}-${ONLYSUB:-none}", "build": map[string]any{"context": "./ctx" + v},
+			"inc": map[string]any{"image": "img-${TAG-none}-${ONLYSUB:-none}", "build": map[string]any{"context": "./ctx" + v},
 				"env_file": []any{"./svc.env"}, "volumes": []any{"./data:/data", "named:/n"}},
 			// path attributes written as mappings inside sequences, inherited through a same-file extends
 			"lbase": map[string]any{"image": "l", "env_file": []any{map[string]any{"path": "./l.env", "required": false}},
@@ -48,11 +48,12 @@ func VerifC06Include() {
 	baseDir := subAbs
 	switch pd {
 	case 1: // relative project_directory
-		long["project_directory"] = "pd"
-		baseDir = w + "/pd"
-		vrtDir(w + "/pd")
+		// a directory whose name looks like a file name
+		long["project_directory"] = "pd.v2"
+		baseDir = w + "/pd.v2"
+		vrtDir(w + "/pd.v2")
 		if hasDotEnv {
-			vrtFile(w+"/pd/.env", "TAG=fromsub\nONLYSUB=sub"+v+"\n")
+			vrtFile(w+"/pd.v2/.env", "TAG=fromsub\nONLYSUB=sub"+v+"\n")
 		}
 	case 2: // absolute project_directory different from the included file's directory
 		long["project_directory"] = w + "/abs"
@@ -75,10 +76,13 @@ func VerifC06Include() {
 		vrtFile(subAbs+"/e1.env", "TAG=frome1\n")
 		vrtFile(subAbs+"/e2.env", "ONLYSUB=d-${TAG}\n")
 	}
-	parentTag := vrtChoice("parentDefinesTAG", 2) == 1
+	// the parent environment defines TAG, defines it empty (still defined), or does not define it
+	parentMode := vrtChoice("parentDefinesTAG", 3)
+	parentTag := parentMode != 0
+	parentVal := []string{"", "parent", ""}[parentMode]
 	env := types.Mapping{}
 	if parentTag {
-		env["TAG"] = "parent"
+		env["TAG"] = parentVal
 	}
 	main := map[string]any{
 		"include":  include,
@@ -104,7 +108,7 @@ func VerifC06Include() {
 	// environment layering: parent wins, included .env only for what the parent lacks
 	tag := "none"
 	if parentTag {
-		tag = "parent"
+		tag = parentVal
 	} else if hasDotEnv {
 		tag = "fromsub"
 	}
@@ -114,7 +118,7 @@ func VerifC06Include() {
 	}
 	if chain {
 		if parentTag {
-			tag, only = "parent", "d-parent"
+			tag, only = parentVal, "d-"+parentVal
 		} else {
 			tag, only = "frome1", "d-frome1"
 		}
